@@ -298,10 +298,11 @@ func init() {
 		Engine: "sched",
 		Procs:  1,
 		Race:   true,
-		Rule:   "all unordered pairs and all triples containing a writer of the calls {Put Get Delete ListKeys Fold iterator-scan Stat Sync Batch(put;commit) Merge} on overlapping keys x index type x {one file; every record rotates} are explored under the controlled scheduler up to the preemption bound, in a -race build whose baton hand-off creates no happens-before edge; per schedule: no race report, no panic, no deadlock/livelock, no internal error from an individually valid call, no nil key from ListKeys. states = distinct (scenario, outcome) pairs; non-trivial = scenarios with more than one outcome",
+		Rule:   "all unordered pairs and all triples containing a writer of the calls {Put Get Delete ListKeys Fold iterator-scan Stat Sync Batch(put;commit) Merge} on overlapping keys x index type x {one file; every record rotates} are explored under the controlled scheduler up to the preemption bound, in a -race build whose baton hand-off creates no happens-before edge; per schedule: no race report, no panic, no deadlock/livelock, no internal error from an individually valid call, no nil key from ListKeys. Separately (level background-merge-free-running, NOT an exploration: counted as free_running_executions): Options.EnableBackgroundMerge with the ticker shortened to 200 microseconds, a fixed client script next to the engine's own merge goroutine, free-running under the race detector, final mapping compared with the model across a restart. states = distinct (scenario, outcome) pairs; non-trivial = scenarios with more than one outcome",
 		Assumptions: []string{
 			"the race detector sees only the enumerated executions and reports each distinct race once per process",
 			"2-3 goroutines, one call each (the quantifier's 16 is not reached)",
+			"the goroutine started by Open for EnableBackgroundMerge (plain go statement, select on a ticker) is not owned by the scheduler: its accesses are only seen by the free-running pass",
 			"third-party index code is instrumented by -race, assembly is not",
 		},
 		Tasks: c09Tasks,
